@@ -46,6 +46,20 @@ func (Engine) Generate(property, scenario string, seed uint64, tier string) *sim
 	if tier == "thorough" {
 		ops = r.Range(4, 80)
 	}
+	if r.Chance(1, 3) {
+		// One process acquires, releases and acquires again (or is refused and
+		// succeeds later), a garbage collection runs during the second hold,
+		// and another process then tries.
+		a, b := fmt.Sprintf("p%d", r.Intn(n)), fmt.Sprintf("p%d", r.Intn(n))
+		first := []string{"acquire", "release"}
+		if r.Chance(1, 2) {
+			first = []string{"acquire-begin", "acquire-finish", "release"}
+		}
+		for _, k := range append(first, "acquire", "gc") {
+			p.Ops = append(p.Ops, simkit.Op{Actor: a, Kind: k})
+		}
+		p.Ops = append(p.Ops, simkit.Op{Actor: b, Kind: "acquire"}, simkit.Op{Actor: a, Kind: "journal"})
+	}
 	for i := 0; i < ops; i++ {
 		// acquire-begin / acquire-finish split one acquisition at the point
 		// where the lock file is open and the lock call has not been made, so
